@@ -454,6 +454,10 @@ impl<'a> Outbound<'a> {
     }
 
     pub(super) fn arm_replay(&mut self) {
+        // A PINGREQ probes the connection that owed it and is not session state: it is never
+        // carried over to the next connection (whose keep-alive may differ, or be off).
+        self.pending_control
+            .retain(|entry| !matches!(entry.action, ControlAction::PingReq));
         if !self.has_pending_state() {
             return;
         }
